@@ -1372,3 +1372,14 @@ package crypto
 //@ assigns *image, y[0:1]
 //@ loop 1 invariant -1 <= i && i <= degree
 //@ loop 1 assigns *image, i
+
+// ---- Lagrange coefficients (C06): the index products are batched in 64-bit limbs, 8 byte-sized factors at a time;
+// `nowrap` makes every unsigned multiplication an obligation, the invariant is the bound 255^(number of factors so far).
+//@ pred pw255(n) = ite(n <= 0, 1, ite(n == 1, 255, ite(n == 2, 65025, ite(n == 3, 16581375, ite(n == 4, 4228250625, ite(n == 5, 1078203909375, ite(n == 6, 274941996890625, ite(n == 7, 70110209207109375, 17878103347812890625))))))))
+//@ cfunc Fr_lagrange_coeff_at_zero nowrap props C06 C09
+//@ requires res != nil && 0 <= i && i <= degree && degree <= 254 && valid(indices, degree+1)
+//@ requires [indices-are-bytes] forall(q, 0, degree+1, 0 <= indices[q] && indices[q] <= 255)
+//@ assigns *res
+//@ loop 1 invariant 0 <= j && j <= degree + 1
+//@ loop 2 invariant [batch-of-at-most-8] k <= j && j <= k + 8 && j <= degree + 1 && 0 <= k
+//@ loop 2 invariant [no-limb-overflow] 0 <= limb_numerator && limb_numerator <= pw255(j - k) && 0 <= limb_denominator && limb_denominator <= pw255(j - k)
